@@ -1065,8 +1065,9 @@ class _ParenInterp:
     A small concrete evaluator: strings, tuples, lists, dicts, closures (lambdas / local defs / module-level tables built
     by loops), if / for / return — whatever it does not know makes the rule undecided."""
 
-    def __init__(self, fn, op, left, right, module_tree=None):
+    def __init__(self, fn, op, left, right, module_tree=None, class_node=None):
         self.fn = fn
+        self.cls = class_node      # the class of the method: `self.<constant>` / `self.<helper>(…)` are read from it
         self.params = [a.arg for a in fn.args.args]
         self.tuple = (left, op, right)
         self.globals = _Env()
@@ -1242,6 +1243,69 @@ class _ParenInterp:
             if not isinstance(t, bool):
                 raise _Undecided("conditional expression")
             return self.ev(e.body if t else e.orelse)
+        if isinstance(e, (ast.ListComp, ast.GeneratorExp)):
+            out = []
+            saved = self.env
+
+            def loop(i):
+                if i == len(e.generators):
+                    out.append(self.ev(e.elt))
+                    return
+                g = e.generators[i]
+                it = self.ev(g.iter)
+                if not isinstance(it, (list, tuple)):
+                    raise _Undecided(f"comprehension over {norm(g.iter)[:40]}")
+                for v in list(it):
+                    if isinstance(g.target, ast.Name):
+                        self.env[g.target.id] = v
+                    elif isinstance(g.target, ast.Tuple) and isinstance(v, tuple) and len(v) == len(g.target.elts) \
+                            and all(isinstance(t, ast.Name) for t in g.target.elts):
+                        for t, x in zip(g.target.elts, v):
+                            self.env[t.id] = x
+                    else:
+                        raise _Undecided("comprehension target")
+                    ok = True
+                    for c in g.ifs:
+                        r = self.ev(c)
+                        if not isinstance(r, bool):
+                            raise _Undecided("comprehension filter")
+                        ok = ok and r
+                    if ok:
+                        loop(i + 1)
+            self.env = _Env(saved)
+            try:
+                loop(0)
+            finally:
+                self.env = saved
+            return out
+        if isinstance(e, ast.Attribute) and isinstance(e.value, ast.Name) and e.value.id in ("self", "cls") \
+                and isinstance(self.cls, ast.ClassDef):
+            for st in self.cls.body:
+                if isinstance(st, ast.Assign) and any(isinstance(t, ast.Name) and t.id == e.attr for t in st.targets):
+                    return self.ev(st.value)
+            raise _Undecided(f"attribute self.{e.attr}")
+        if isinstance(e, ast.Call) and isinstance(e.func, ast.Attribute) and isinstance(e.func.value, ast.Name) \
+                and e.func.value.id in ("self", "cls") and isinstance(self.cls, ast.ClassDef) \
+                and e.func.attr != self.fn.name:
+            g = next((st for st in self.cls.body if isinstance(st, ast.FunctionDef) and st.name == e.func.attr), None)
+            if g is not None:
+                static = any(norm(d) == "staticmethod" for d in g.decorator_list)
+                ps = [a.arg for a in g.args.args]
+                if not static:
+                    ps = ps[1:]
+                sub = _ParenInterp(g, None, None, None, class_node=self.cls)
+                sub.globals = self.globals
+                sub.env = _Env(self.globals)
+                for a, v in zip(ps, [self.ev(x) for x in e.args]):
+                    sub.env[a] = v
+                for k in e.keywords:
+                    sub.env[k.arg] = self.ev(k.value)
+                sub.fn = self.fn
+                try:
+                    sub.block([b for b in g.body if not (isinstance(b, ast.Expr) and isinstance(b.value, ast.Constant))])
+                except _Ret as r:
+                    return r.v
+                return None
         if isinstance(e, ast.Call):
             f = e.func
             if isinstance(f, ast.Name) and f.id == "type" and len(e.args) == 1:
@@ -1298,7 +1362,7 @@ class _ParenInterp:
                     callee = None
             if isinstance(callee, _Closure):
                 node = callee.node
-                sub = _ParenInterp(self.fn, None, None, None)
+                sub = _ParenInterp(self.fn, None, None, None, class_node=self.cls)
                 sub.globals = self.globals
                 sub.env = _Env(callee.env)
                 names = [a.arg for a in node.args.args]
@@ -1314,7 +1378,7 @@ class _ParenInterp:
             if isinstance(callee, ast.FunctionDef) or (
                     isinstance(f, ast.Name) and self.env.has(f.id) and isinstance(self.env.lookup(f.id), ast.FunctionDef)):
                 g = callee if isinstance(callee, ast.FunctionDef) else self.env.lookup(f.id)
-                sub = _ParenInterp(g, None, None, None)
+                sub = _ParenInterp(g, None, None, None, class_node=self.cls)
                 sub.globals = self.globals
                 sub.env = _Env(self.env)
                 for a, v in zip([x.arg for x in g.args.args], [self.ev(x) for x in e.args]):
@@ -1346,7 +1410,7 @@ def r_paren(E):
             left = _Elem("left", child if side == "left" else None)
             right = _Elem("right", child if side == "right" else None)
             try:
-                shown = _ParenInterp(fn, op, left, right, mod_tree).run()
+                shown = _ParenInterp(fn, op, left, right, mod_tree, class_node=getattr(fn, "_parent", None)).run()
             except _Undecided as u:
                 res.undecided.append(f"print_tuple_element: cannot evaluate symbolically ({u})")
                 continue
